@@ -58,7 +58,7 @@ func c01MapRootChain(c *Ctx) {
 			if W == nil || len(W.Blocks) == 0 || !inModule(W) {
 				continue
 			}
-			k, bad, pos := c04ForwardsOwnArgs(W, nil)
+			k, bad, pos := c04ForwardsOwnArgs(c.P, W, map[*types.Var]bool{fv: true}, nil)
 			if k == 0 {
 				continue
 			}
